@@ -590,6 +590,13 @@ func (r *seqRun) opFail(t *rapid.T) {
 			if r.state[addr] == stU {
 				r.state[addr] = stX // reported blocks are outside the asserted domain
 			}
+		case kind == failBlockEndpoint:
+			// the session's endpoint is disabled; whether the provider can still be selected depends on
+			// its remaining endpoints and on asynchronous reconnects: not certainly selectable any more
+			// (the thorough tier showed a stateful GetSessions skipping such a provider)
+			if r.state[addr] == stU {
+				r.state[addr] = stX
+			}
 		}
 		if sessionBlocked && usedBefore <= h.cu && r.state[addr] == stU {
 			r.state[addr] = stX // block with a timed second chance: outside the asserted domain
